@@ -42,6 +42,17 @@ type apiRunner struct {
 	seenOids map[primitive.ObjectID]bool
 	book     ixBook          // secondary indexes created by the successful calls so far (C15)
 	reported map[string]bool // C15 issues already reported in this history (an incoherent index stays incoherent)
+	// C03: snapshots held until the end of the history
+	snapAt     int // the catalog published by this step is held (0: by the second step)
+	nstep      int
+	heldCat    *lungo.Catalog
+	heldDump   string
+	heldStep   int
+	findStep   int
+	heldFind   []bson.D // the decoded result of one find
+	heldFindJ  string
+	heldCursor lungo.ICursor // a second, unread cursor of the same find
+	heldReply  string
 }
 
 func newAPIRunner(env *apiEnv, extra string) *apiRunner {
@@ -76,6 +87,7 @@ func (m *apiRunner) step(c *apiCall) apiStep {
 	post := env.engine.Catalog()
 	postDump := apiDump(post)
 	m.prevDump = postDump
+	m.nstep++
 
 	// events appended by this call; generated ObjectIDs in order
 	preLog, postLog := oplogOf(pre), oplogOf(post)
@@ -118,6 +130,30 @@ func (m *apiRunner) step(c *apiCall) apiStep {
 		if !m.probe() {
 			viol("C20", "a locked transaction cannot be started promptly after a failed call", "wedged-after:"+c.M, reply)
 		}
+	}
+
+	// C03: the catalog object that was current before the call is a snapshot: whatever the call did
+	// (also a failed one, an index call, an expiry pass), it still dumps to the same string
+	safely("snapshot", func() {
+		if now := apiDump(pre); now != preDump {
+			viol("C03", "the catalog that was current before the call reads differently after it", "snapshot-mutated:"+c.M, "reply "+clip(reply, 80)+" before | after: "+dumpDiff(preDump, now))
+		}
+	})
+	// hold the catalog of one step and one find (its decoded result and a second, unread cursor) until the end
+	at := m.snapAt
+	if at <= 0 {
+		at = 2
+	}
+	if m.heldCat == nil && m.nstep >= at && postDump != preDump {
+		m.heldCat, m.heldDump, m.heldStep = post, postDump, m.nstep
+	}
+	if c.M == "find" && m.heldFind == nil && len(env.lastFind) > 0 && strings.HasPrefix(reply, `{"ok"`) {
+		m.heldFind, m.heldFindJ, m.heldReply, m.findStep = env.lastFind, encDocList(env.lastFind), reply, m.nstep
+		safely("cursor", func() {
+			if csr, err := env.client.Database(c.DB).Collection(c.Coll).Find(context.Background(), c.Q, findOpts(c)); err == nil {
+				m.heldCursor = csr
+			}
+		})
 	}
 
 	// C02: a failed call leaves the dump (documents, indexes, oplog) byte-identical
@@ -217,6 +253,14 @@ func (m *apiRunner) step(c *apiCall) apiStep {
 		safely("window", func() {
 			if detail := m.findWindow(c, post); detail != "" {
 				viol("C13", "Find returned a different window than filter → stable sort → skip → limit", "find-window", detail)
+			}
+		})
+	}
+
+	if (c.M == "findOneAndDelete" || c.M == "findOneAndReplace" || c.M == "findOneAndUpdate") && strings.HasPrefix(reply, `{"ok"`) {
+		safely("target", func() {
+			if detail := modifyTarget(c, pre, post); detail != "" {
+				viol("C13", "a find-and-modify touched another document than the first match of filter → stable sort", "find-window:"+c.M, detail)
 			}
 		})
 	}
@@ -346,6 +390,41 @@ func (m *apiRunner) probe() bool {
 	}
 }
 
+// finish re-reads the snapshots held since earlier steps (before the final probe).
+func (m *apiRunner) finish() (out []run.Violation) {
+	viol := func(what, witness, detail string) {
+		out = append(out, run.Violation{Property: "C03", What: what, Witness: witness, Req: m.histReq(), Detail: clip(detail, 1500)})
+	}
+	defer func() {
+		if p := recover(); p != nil {
+			out = append(out, run.Violation{Property: "C20", What: "monitor snapshot panicked", Witness: "monitor-panic:snapshot", Req: m.histReq(), Detail: fmt.Sprint(p)})
+		}
+	}()
+	if m.heldCat != nil {
+		if now := apiDump(m.heldCat); now != m.heldDump {
+			viol(fmt.Sprintf("the catalog published by step %d reads differently at the end of the history", m.heldStep), "snapshot-mutated:held-catalog", dumpDiff(m.heldDump, now))
+		}
+	}
+	if m.heldFind != nil {
+		if now := encDocList(m.heldFind); now != m.heldFindJ {
+			viol(fmt.Sprintf("the decoded result of the find of step %d changed", m.findStep), "snapshot-mutated:find-result", "was "+m.heldFindJ+" now "+now)
+		}
+	}
+	if m.heldCursor != nil {
+		var docs []bson.D
+		now := ""
+		if err := m.heldCursor.All(context.Background(), &docs); err != nil {
+			now = errReply(err)
+		} else {
+			now = `{"ok":{"docs":` + encDocList(docs) + `}}`
+		}
+		if now != m.heldReply {
+			viol(fmt.Sprintf("a cursor opened at step %d returns other documents at the end of the history", m.findStep), "snapshot-mutated:cursor", "was "+m.heldReply+" now "+now)
+		}
+	}
+	return out
+}
+
 // finalProbe inserts into a scratch collection (after the last comparison of the history).
 func (m *apiRunner) finalProbe() *run.Violation {
 	done := make(chan string, 1)
@@ -431,7 +510,7 @@ func batchOracle(pre *lungo.Catalog, c *apiCall) (string, bool) {
 func monTuples(doc bsonkit.Doc, key bson.D) [][]interface{} {
 	tuples := [][]interface{}{{}}
 	for _, e := range key {
-		v, _ := bsonkit.All(doc, e.Key, true, true)
+		v := ownValues(doc, e.Key)
 		vals := []interface{}{v}
 		if a, ok := v.(bson.A); ok && len(a) > 0 {
 			vals = a
@@ -453,7 +532,7 @@ func tuplesShare(a, b [][]interface{}) bool {
 		for _, y := range b {
 			eq := len(x) == len(y)
 			for i := 0; eq && i < len(x); i++ {
-				eq = bsonkit.Compare(x[i], y[i]) == 0
+				eq = keyEq(x[i], y[i])
 			}
 			if eq {
 				return true
@@ -850,36 +929,12 @@ func (m *apiRunner) findWindow(c *apiCall, cat *lungo.Catalog) string {
 		}
 		return "" // Transaction.Find answers before looking at sort and skip
 	}
-	list := ns.Documents.List
-	var sel bsonkit.List
-	for _, d := range list {
-		ok, err := mongokit.Match(d, &c.Q)
-		if err != nil {
-			return "" // the implementation may stop before the offending document
+	sel, verdict := sortedSelection(ns.Documents.List, c.Q, c.Sort, hasSort)
+	if verdict != "" {
+		if verdict == "no verdict" {
+			return ""
 		}
-		if ok {
-			sel = append(sel, d)
-		}
-	}
-	if hasSort && len(c.Sort) > 0 {
-		rev, ok := sortDirs(c.Sort)
-		if !ok {
-			return "Find accepted a malformed sort " + vj.Enc(c.Sort)
-		}
-		sort.SliceStable(sel, func(i, j int) bool {
-			for k, e := range c.Sort {
-				a := sortKeyOracle(bsonkit.Get(sel[i], e.Key), rev[k])
-				b := sortKeyOracle(bsonkit.Get(sel[j], e.Key), rev[k])
-				r := bsonkit.Compare(a, b)
-				if rev[k] {
-					r = -r
-				}
-				if r != 0 {
-					return r < 0
-				}
-			}
-			return false
-		})
+		return verdict
 	}
 	if c.HasSkip {
 		if c.Skip < 0 {
@@ -909,6 +964,84 @@ func (m *apiRunner) findWindow(c *apiCall, cat *lungo.Catalog) string {
 	}
 	if strings.Join(want, ",") != strings.Join(have, ",") {
 		return "want [" + strings.Join(want, ",") + "] got [" + strings.Join(have, ",") + "]"
+	}
+	return ""
+}
+
+// sortedSelection: the matching documents (real matcher) in stable sort order (own comparator: per
+// key the minimum / maximum element of an array, exact numeric order). verdict "no verdict": the
+// filter does not evaluate on some document.
+func sortedSelection(list bsonkit.List, q bson.D, sortDoc bson.D, hasSort bool) (sel bsonkit.List, verdict string) {
+	for _, d := range list {
+		ok, err := mongokit.Match(d, &q)
+		if err != nil {
+			return nil, "no verdict" // the implementation may stop before the offending document
+		}
+		if ok {
+			sel = append(sel, d)
+		}
+	}
+	if hasSort && len(sortDoc) > 0 {
+		rev, ok := sortDirs(sortDoc)
+		if !ok {
+			return nil, "a malformed sort was accepted: " + vj.Enc(sortDoc)
+		}
+		sort.SliceStable(sel, func(i, j int) bool {
+			for k, e := range sortDoc {
+				a := sortKeyOracle(bsonkit.Get(sel[i], e.Key), rev[k])
+				b := sortKeyOracle(bsonkit.Get(sel[j], e.Key), rev[k])
+				r := keyCmp(a, b)
+				if rev[k] {
+					r = -r
+				}
+				if r != 0 {
+					return r < 0
+				}
+			}
+			return false
+		})
+	}
+	return sel, ""
+}
+
+// modifyTarget checks which document a findOneAndDelete / findOneAndReplace / findOneAndUpdate
+// touched: the documents of the prior list that are gone from the new one (by identity) must be at
+// most the FIRST matching document in stable sort order.
+func modifyTarget(c *apiCall, pre, post *lungo.Catalog) string {
+	h := lungo.Handle{c.DB, c.Coll}
+	ns := pre.Namespaces[h]
+	if ns == nil {
+		return ""
+	}
+	sel, verdict := sortedSelection(ns.Documents.List, c.Q, c.Sort, c.HasSort)
+	if verdict != "" {
+		if verdict == "no verdict" {
+			return ""
+		}
+		return verdict
+	}
+	still := map[bsonkit.Doc]bool{}
+	if pn := post.Namespaces[h]; pn != nil {
+		for _, d := range pn.Documents.List {
+			still[d] = true
+		}
+	}
+	var gone bsonkit.List
+	for _, d := range ns.Documents.List {
+		if !still[d] {
+			gone = append(gone, d)
+		}
+	}
+	idOf := func(d bsonkit.Doc) string { return vj.Enc(bsonkit.Get(d, "_id")) }
+	switch {
+	case len(gone) > 1:
+		return fmt.Sprintf("%d documents were touched", len(gone))
+	case len(gone) == 1 && len(sel) == 0:
+		return "document " + idOf(gone[0]) + " was touched although nothing matches"
+	case len(gone) == 1 && gone[0] != sel[0]:
+		return "want " + idOf(sel[0]) + " (first of " + strconv.Itoa(len(sel)) + " in sort order) got " + idOf(gone[0])
+	case len(gone) == 0 && len(sel) > 0 && c.M == "findOneAndDelete":
+		return "the first matching document " + idOf(sel[0]) + " was not deleted"
 	}
 	return ""
 }
